@@ -130,7 +130,9 @@ def joinall(xs):
 
 
 class Event(object):
-    def __init__(self, key, module, func, node, kind, receiver, detail, chain):
+    def __init__(self, key, module, func, node, kind, receiver, detail, chain, value=None, attr=None):
+        self.value = value          # ownership of the stored value (attribute stores)
+        self.attr = attr            # (class name, attribute) for stores through self
         self.key = key              # function key where the event occurs
         self.module = module
         self.func = func
@@ -369,10 +371,10 @@ class _Interp(object):
         return HOST
 
     # -- events ---------------------------------------------------------------------------------
-    def event(self, node, kind, receiver, detail):
+    def event(self, node, kind, receiver, detail, value=None, attr=None):
         if not self.record or receiver is None:
             return
-        self.eff.events.append(Event(self.key, self.m, self.f, node, kind, receiver, detail, self.chain))
+        self.eff.events.append(Event(self.key, self.m, self.f, node, kind, receiver, detail, self.chain, value, attr))
 
     # -- statements -------------------------------------------------------------------------------
     def run(self):
@@ -598,9 +600,10 @@ class _Interp(object):
         elif isinstance(t, ast.Attribute):
             base = self.expr(t.value, env)
             if isinstance(base, _SelfOwn):
-                self.event(stmt, 'store', STATE('%s.%s' % (base.owner[1].name, t.attr)), src(t))
+                self.event(stmt, 'store', STATE('%s.%s' % (base.owner[1].name, t.attr)), src(t), value=v,
+                           attr=(base.owner[1].name, t.attr))
             else:
-                self.event(stmt, 'store', base, src(t))
+                self.event(stmt, 'store', base, src(t), value=v)
         elif isinstance(t, ast.Starred):
             self.assign(t.value, v, env, stmt)
 
@@ -835,6 +838,10 @@ class _Interp(object):
             recv_is_module = self._rooted_in_module(fn, env)
             if not recv_is_module:
                 recv = self.expr(fn.value, env)
+                if isinstance(fn.value, ast.Call) and isinstance(fn.value.func, ast.Name) and fn.value.func.id == 'super':
+                    ps0 = sa.params(self.f) if not isinstance(self.f, ast.Lambda) else []
+                    if ps0:
+                        recv = self.lookup(ps0[0], env)     # super().method(...) acts on self
                 attr = fn.attr
                 if attr in MUTATORS:
                     self.event(e, 'call', recv if not isinstance(recv, _SelfOwn) else STATE('self'), '%s(...)' % src(fn))
